@@ -29,6 +29,7 @@ SIG_D0 = "Defocus-PSF|param-0:IndexError"
 SIG_PG = "Poisson1D.__init__|range-grid-ignores-endpoint"
 SIG_HS = "Heat1D.__init__|field_type-Step+map:AttributeError"
 SIG_PP = "cuqi.data.p_power|odd-size:wrong-shape"
+SIG_H1 = "Heat1D|single-observation:0-d-data"
 
 # ------------------------------------------------------------------------------------------------
 # encoders
@@ -243,6 +244,11 @@ def probe_state(force=False):
         with ScriptedRandom(seed=0):
             _STATE["pgrid_fixed"] = bool(Poisson1D(dim=3, endpoint=2, source=lambda xs: 1 + 0 * xs).model.range_geometry.grid[0] == 1.0)
             try:
+                from cuqi.testproblem import Heat1D as _H
+                _STATE["heat1obs_fixed"] = np.ndim(_H(dim=1).exactData) == 1
+            except Exception:
+                _STATE["heat1obs_fixed"] = False
+            try:
                 _STATE["ppower_fixed"] = cuqi.data.p_power(size=5).shape == (5, 5)
             except Exception:
                 _STATE["ppower_fixed"] = False
@@ -290,7 +296,7 @@ def mk_prior(cuqi, spec, dim, geometry=None):
     if spec is None:
         return None
     kw = {"geometry": geometry} if geometry is not None else {}
-    return cuqi.distribution.Gaussian(np.array(spec["mean"], dtype=float), spec["cov"], name="x", **kw)
+    return cuqi.distribution.Gaussian(np.array(spec["mean"], dtype=float), spec["cov"], name=spec.get("name", "x"), **kw)
 
 
 def arr_or_str(v, ndim=1):
@@ -309,6 +315,14 @@ def construct(spec):
             warnings.simplefilter("ignore")
             with ScriptedRandom(seed=0, script=d):
                 sty = spec.get("style", {})
+                if sty.get("np_str"):          # str SUBCLASS instances for every name-valued option
+                    for key in ("PSF", "BC", "phantom", "noise_type", "field_type"):
+                        if isinstance(kw.get(key), str):
+                            kw[key] = np.str_(kw[key])
+                    if isinstance(kw.get("field"), dict) and isinstance(kw["field"].get("type"), str) and not kw["field"]["type"].startswith("inst:"):
+                        kw["field"] = dict(kw["field"], _np_str=True)
+                if sty.get("np_bool") and "use_legacy" in kw:
+                    kw["use_legacy"] = np.bool_(kw["use_legacy"])
                 if kind in ("deconv1d", "deconv2d"):
                     for key in ("PSF", "phantom"):
                         if key in kw and not isinstance(kw[key], str):
@@ -369,10 +383,10 @@ def construct(spec):
 
 
 SOURCES = {"zero": lambda xs: 0 * xs, "one": lambda xs: 1 + 0 * xs, "lin": lambda xs: 2 * xs + 1, "quad": lambda xs: 4 * xs * xs}
-OBSMAPS = {"upper": lambda g: g[np.where(g > 0.45)], "every2": lambda g: g[::2]}
+OBSMAPS = {"upper": lambda g: g[np.where(g > 0.45)], "every2": lambda g: g[::2], "last": lambda g: g[-1:]}
 MAPS = {"exp": (lambda x: np.exp(x), lambda x: np.log(x)), "affine": (lambda x: 2 * x + 1, lambda x: (x - 1) / 2),
         "sq1": (lambda x: x * x + 1, lambda x: np.sqrt(x - 1))}
-GCLASS = {"cont": ("Continuous1D", 0, "GContinuous1D"), "KL": ("KLExpansion", 1, "GKL"), "KL_Full": ("KLExpansion_Full", 2, "GKLFull"),
+GCLASS = {"subcont": ("UserContinuous1D", 0, "GContinuous1D"), "subStep": ("UserStepExpansion", 3, "GStep"), "cont": ("Continuous1D", 0, "GContinuous1D"), "KL": ("KLExpansion", 1, "GKL"), "KL_Full": ("KLExpansion_Full", 2, "GKLFull"),
           "Step": ("StepExpansion", 3, "GStep"), "CustomKL": ("CustomKL", 4, "GCustomKL")}
 
 
@@ -396,6 +410,9 @@ def field_params_py(cls, params):
 
 def mk_field_geometry(cuqi, cls, grid, params):
     G = cuqi.geometry
+    if cls.startswith("sub"):        # an instance of a USER SUBCLASS of a shipped geometry (isinstance vs exact-type dispatch)
+        parent = {"subcont": G.Continuous1D, "subStep": G.StepExpansion}[cls]
+        return type("User" + parent.__name__, (parent,), {})(grid, **field_params_py(cls[3:], params))
     ctor = {"cont": G.Continuous1D, "KL": G.KLExpansion, "KL_Full": G.KLExpansion_Full, "Step": G.StepExpansion, "CustomKL": G.CustomKL}[cls]
     return ctor(grid, **field_params_py(cls, params))
 
@@ -417,7 +434,7 @@ def field_kw(cuqi, kw, mapname):
             if fd.get("params_also"):
                 kw["field_params"] = {}
         elif ft is not None:
-            kw["field_type"] = ft
+            kw["field_type"] = np.str_(ft) if fd.get("_np_str") else ft
             if fd.get("params") is not None:
                 kw["field_params"] = field_params_py(ft, fd["params"])
         if fd.get("map"):
@@ -435,7 +452,7 @@ def field_kw(cuqi, kw, mapname):
     if "observation_grid_map" in kw:
         kw["observation_grid_map"] = OBSMAPS[kw["observation_grid_map"]]
     if "exactSolution" in kw:
-        kw["exactSolution"] = np.array(kw["exactSolution"], dtype=float)
+        kw["exactSolution"] = np.array(kw["exactSolution"], dtype=(int if kw.pop("exactSolution_int", False) else float))
     if "fmap" in kw:
         m, im = MAPS[kw.pop("fmap")]
         kw[mapname] = m
@@ -1080,6 +1097,20 @@ def heat_cases(spec, cell):
     tp, d, err = construct(spec)
     if tp is None:
         raise RuntimeError("Heat1D refused: %s %r" % (err, spec))
+    if np.ndim(tp.exactData) == 0 or np.ndim(tp.data) == 0:
+        # exactly ONE observed node: the observation is squeezed to a 0-d array and the problem cannot be evaluated
+        ok_state = not probe_state().get("heat1obs_fixed", False)
+        try:
+            with warnings.catch_warnings():
+                warnings.simplefilter("ignore")
+                tp.posterior.logd(np.ones(tp.model.domain_dim))
+            raised = None
+        except Exception as e_:
+            raised = type(e_).__name__
+        return [Case(expr=cbool(ok_state), meta=spec_clean(dict(spec, obs="single-observation")), cell=cell + "/single-observation", kind="DECISION", trivial=True),
+                verdict_case(spec_clean(dict(spec, obs="single-observation")), cell,
+                             "Heat1D(%s): with exactly one observed node exactData/data are 0-d arrays (shape %s) instead of 1-vectors%s" % (
+                                 ", ".join("%s=%r" % kv for kv in kw.items()), np.shape(tp.data), "; posterior.logd raises " + raised if raised else ""), SIG_H1)]
     dx = ep / (N + 1)
     steps = int(T / (5 / 11 * dx ** 2))
     dt = T / steps if steps else 0.0
@@ -1802,6 +1833,72 @@ def specs(ctx):
                 out.append(({"tp": tpk, "kw": kw, "z": zvec(rng, nobs, k), "x": xv},
                             "%s/field/%s/%s" % ({"poisson": "Poisson1D", "heat": "Heat1D", "abel": "Abel1D"}[tpk], ft or "None",
                                                 "nomap" if mp is None else ("map+imap" if mp else "map-noimap")), "field"))
+    # ---------------- round-4 lessons: cells that fit the existing handlers ----------------
+    # L23 exact type vs subclass: ndarray / str / bool / Geometry SUBCLASS instances for every dispatched argument
+    for nm, kwf, sty, h in [("PSF-CUQIarray", {"PSF": [1, 3, 2], "BC": "mirror"}, {"PSF": "cuqiarray"}, "deconv1d"),
+                            ("names-np.str_", {"PSF": "Moffat", "PSF_size": 3, "PSF_param": 1.5, "BC": "Reflect", "noise_type": "Gaussian"}, {"np_str": True}, "deconv1d"),
+                            ("phantom-name-np.str_", {"PSF": [1, 2, 3], "BC": "zero", "phantom": "sinc"}, {"np_str": True}, "deconv1d"),
+                            ("use_legacy-np.bool_", {"PSF": [1, 3, 2, 5, 1, 2], "use_legacy": True}, {"np_bool": True}, "legacy"),
+                            ("legacy-name-np.str_", {"PSF": "vonMises", "PSF_param": 3, "use_legacy": True}, {"np_str": True, "np_bool": True}, "legacy")]:
+        k += 1
+        kw = dict({"dim": 6, "phantom": [rng.randint(1, 5) for _ in range(6)], "noise_std": STD[k % 4]}, **kwf)
+        out.append(({"tp": "deconv1d", "kw": kw, "style": sty, "z": zvec(rng, 6, k), "x": dyvec(rng, 6)}, "Deconvolution1D/subclass/" + nm, h))
+    k += 1
+    out.append(({"tp": "deconv2d", "kw": {"dim": 3, "PSF": "Gauss", "PSF_size": 3, "PSF_param": 1.0, "BC": "Neumann", "phantom": [[1, 2, 3], [0, 1, 0], [2, 0, 1]], "noise_type": "Gaussian", "noise_std": 0.5},
+                 "style": {"np_str": True}, "img": [ivec(rng, 3) for _ in range(3)], "z": zvec(rng, 9, k), "x": dyvec(rng, 9)}, "Deconvolution2D/subclass/names-np.str_", "deconv2d"))
+    for tpk in ["poisson", "heat", "abel"]:
+        for ft, params in [("inst:subcont", None), ("inst:subStep", {"n_steps": 2})]:
+            for mp in [None, True]:
+                k += 1
+                pdim = 5 if ft == "inst:subcont" else 2
+                fd = {"type": ft, "params": params}
+                if mp:
+                    fd.update({"map": "affine", "imap": True})
+                kw = {"dim": 5, "SNR": 200, "field": fd}
+                if tpk == "poisson":
+                    kw["source"] = "lin"
+                out.append(({"tp": tpk, "kw": kw, "z": zvec(rng, 4 if tpk == "poisson" else 5, k), "x": [rng.randint(4, 12) / 4 for _ in range(pdim)]},
+                            "%s/field/%s/%s" % ({"poisson": "Poisson1D", "heat": "Heat1D", "abel": "Abel1D"}[tpk], ft, "map+imap" if mp else "nomap"), "field"))
+        k += 1
+        fd = {"type": rng.choice(["KL", "Step"]), "params": None, "map": "sq1", "imap": True}
+        kw = {"dim": 5, "SNR": 200, "field": fd}
+        if tpk == "poisson":
+            kw["source"] = "one"
+        pdim = 5 if fd["type"] == "KL" else 3
+        out.append(({"tp": tpk, "kw": kw, "style": {"np_str": True}, "z": zvec(rng, 4 if tpk == "poisson" else 5, k), "x": dyvec(rng, pdim, -6, 6)},
+                    "%s/field/name-np.str_" % {"poisson": "Poisson1D", "heat": "Heat1D", "abel": "Abel1D"}[tpk], "field"))
+    # L21 degenerate counts: one node, one step, one mode, one observed node, one time step
+    for tpk, kwf, nobs, xd in [("heat", {"dim": 1}, 1, 1), ("heat", {"dim": 2}, 2, 2), ("poisson", {"dim": 2, "source": "lin"}, 1, 2),
+                               ("heat", {"dim": 4, "max_time": 0.03}, 4, 4), ("heat", {"dim": 5, "observation_grid_map": "last"}, 1, 5),
+                               ("poisson", {"dim": 6, "source": "quad", "observation_grid_map": "last"}, 1, 6)]:
+        k += 1
+        out.append(({"tp": tpk, "kw": dict({"SNR": 200}, **kwf), "z": zvec(rng, nobs, k), "x": dyvec(rng, xd, 2, 8)},
+                    "%s/count-1/%s" % ({"poisson": "Poisson1D", "heat": "Heat1D"}[tpk], "+".join("%s=%s" % kv for kv in sorted(kwf.items()))), tpk))
+    for tpk in ["poisson", "heat", "abel"]:
+        for ft, params, pdim in [("Step", {"n_steps": 1}, 1), ("KL", {"num_modes": 1}, 1), ("inst:Step", {"n_steps": 1}, 1)]:
+            k += 1
+            fd = {"type": ft, "params": params, "map": "sq1" if tpk == "poisson" else rng.choice([None, "affine"]), "imap": True}
+            kw = {"dim": 4, "SNR": 200, "field": fd}
+            if tpk == "poisson":
+                kw["source"] = "one"
+            if tpk != "abel":
+                kw["exactSolution"] = [rng.randint(4, 12) / 4 for _ in range(4)]
+            out.append(({"tp": tpk, "kw": kw, "z": zvec(rng, 3 if tpk == "poisson" else 4, k), "x": [rng.randint(4, 12) / 4]},
+                        "%s/count-1/field-%s" % ({"poisson": "Poisson1D", "heat": "Heat1D", "abel": "Abel1D"}[tpk], ft), "field"))
+    # L18 exact zeros inside generic data; L17 a prior whose name is not the default "x"
+    for nm, pr in [("prior-mean-with-zeros", {"mean": [0.0, 2.0, 0.0, -1.0, 0.0], "cov": 0.25}), ("prior-named-theta", {"mean": dyvec(rng, 5), "cov": 4.0, "name": "theta"}),
+                   ("prior-named-u0-zero-mean", {"mean": [0.0] * 5, "cov": 0.25, "name": "u0"})]:
+        k += 1
+        out.append(({"tp": "deconv1d", "kw": {"dim": 5, "PSF": [1, 2, 3], "BC": rng.choice(["zero", "mirror"]), "phantom": [0, 3, 0, 1, 2], "noise_std": 0.5, "prior": pr},
+                     "z": zvec(rng, 5, k), "x": [0.0, 1.5, 0.0, -0.5, 2.0]}, "Deconvolution1D/" + nm, "deconv1d"))
+    out.append(({"tp": "deconv2d", "kw": {"dim": 2, "PSF": [[1, 2], [3, 4]], "BC": "zero", "phantom": [[0, 1], [2, 0]], "noise_std": 0.5, "prior": {"mean": [0.0, 1.0, 0.0, 2.0], "cov": 0.25, "name": "theta"}},
+                 "img": [[1, 0], [0, 2]], "z": zvec(rng, 4, 2), "x": [0.0, 1.0, 0.0, -1.0]}, "Deconvolution2D/prior-named-theta", "deconv2d"))
+    out.append(({"tp": "cubic", "kw": {"data": 0.75, "prior": {"mean": [0.0, 2.0], "cov": 0.25, "name": "theta"}}, "x": [0.0, 1.5]}, "WangCubic/prior-named-theta", "cubic"))
+    # L20 integer dtype: exact solutions given as integer arrays
+    out.append(({"tp": "heat", "kw": {"dim": 4, "exactSolution": [1, 2, 0, 3], "exactSolution_int": True}, "z": zvec(rng, 4, 2), "x": dyvec(rng, 4)}, "Heat1D/int-dtype/exactSolution", "heat"))
+    out.append(({"tp": "poisson", "kw": {"dim": 4, "source": "lin", "exactSolution": [1, 2, 1, 3], "exactSolution_int": True}, "z": zvec(rng, 3, 2), "x": dyvec(rng, 4, 2, 8)}, "Poisson1D/int-dtype/exactSolution", "poisson"))
+    # L22 the shipped defaults at an odd size as well (PSF_size defaults to dim)
+    out.append(({"tp": "deconv1d", "kw": {"dim": 7}, "z": zvec(rng, 7, 2), "x": dyvec(rng, 7)}, "Deconvolution1D/all-defaults-odd", "deconv1d"))
     # ---------------- WangCubic ----------------
     for dk in ["int", "float", "np", "npint", "bool", "array"]:
         for ns in [None, 0.5]:
@@ -1907,6 +2004,219 @@ def history_cases(ctx):
     return cases
 
 
+def _ref_forward(spec, x):
+    """documented forward map of a plain (identity-geometry) problem spec, plain Python/numpy"""
+    tpk, kw = spec["tp"], spec["kw"]
+    x = [float(v) for v in x]
+    if tpk == "deconv1d":
+        docP, _ = used_psf_1d(kw)
+        return np.array(ref_conv1(x, docP, BC1[kw.get("BC", "periodic").lower()][0]), dtype=float)
+    if tpk == "deconv2d":
+        n = kw["dim"]
+        return np.array(ref_conv2(np.array(x).reshape(n, n).tolist(), [[float(v) for v in r] for r in kw["PSF"]], BC2[kw.get("BC", "periodic").lower()][0]), dtype=float).ravel()
+    if tpk == "abel":
+        return abel_ref(kw["dim"], kw.get("endpoint", 1)) @ np.array(x)
+    if tpk == "heat":
+        return heat_ref(kw["dim"], kw.get("endpoint", 1), kw.get("max_time", 0.2), x)
+    if tpk == "poisson":
+        return poisson_ref(kw["dim"], kw.get("endpoint", 1), x, kw.get("source", "one"))
+    return np.array([10 * x[1] - 10 * x[0] ** 3 + 5 * x[0] ** 2 + 6 * x[0]])
+
+
+def _explicit_logd(data, mx, s2, x, mu, ps2):
+    return gauss_logpdf([float(v) for v in np.ravel(data)], [float(v) for v in np.ravel(mx)], s2) + gauss_logpdf([float(v) for v in x], mu, ps2)
+
+
+LESSON_SPECS = {
+    "Deconvolution1D": {"tp": "deconv1d", "kw": {"dim": 5, "PSF": [1, 2, 3], "BC": "mirror", "phantom": [1, 0, 3, 2, 0], "noise_std": 0.5}, "z": [0.5, 0, -1, 0, 0.25]},
+    "Deconvolution2D": {"tp": "deconv2d", "kw": {"dim": 3, "PSF": [[1, 2, 0], [0, 3, 1], [2, 1, 1]], "BC": "neumann", "phantom": [[1, 2, 0], [4, 0, 6], [7, 8, 9]], "noise_std": 0.5}, "z": [0.5] * 9},
+    "Abel1D": {"tp": "abel", "kw": {"dim": 4, "SNR": 50}, "z": [0.5, 0, -1, 0]},
+    "Heat1D": {"tp": "heat", "kw": {"dim": 4, "SNR": 50}, "z": [0.5, 0, -1, 0]},
+    "Poisson1D": {"tp": "poisson", "kw": {"dim": 5, "source": "lin", "SNR": 50}, "z": [0.5, 0, -1, 0]},
+    "WangCubic": {"tp": "cubic", "kw": {"data": 0.5, "noise_std": 0.5}},
+}
+
+
+def lesson_cases(ctx):
+    try:
+        return _lesson_cases(ctx)
+    except HarnessError:
+        raise
+    except Exception as e_:
+        import traceback
+        meta = {"tp": "lesson", "name": "crash", "handler": "lesson"}
+        tb = traceback.format_exc()
+        return [Case(expr="false", meta=meta, cell="lesson/crash", kind="DECISION"),
+                verdict_case(meta, "lesson/crash", "a lesson cell could not be evaluated: %s: %s | %s" % (type(e_).__name__, str(e_)[:200], tb[-600:].replace("\n", " | ")), "lesson|%s" % type(e_).__name__)]
+
+
+def _lesson_cases(ctx):
+    """round-4 lessons that need a history of calls on one object (oracle-driven DECISION cases):
+    L14 refusal in every life-cycle state, L15 caller overwrites its argument in place between calls, L16 the composite rebuilt from
+    get_components(), L19 user callables returning a reused work buffer / non-contiguous results, L20 integer-dtype evaluation points,
+    L22 the true shipped defaults, L25 argument objects shared by two problems alive at once"""
+    import cuqi
+    from cuqi import testproblem as TP
+    rng = ctx.rng
+    cases = []
+
+    def emit(cell, name, ok, detail, sig):
+        meta = {"tp": "lesson", "name": name, "handler": "lesson"}
+        cases.append(Case(expr=cbool(ok), meta=meta, cell=cell, kind="DECISION"))
+        if not ok:
+            cases.append(verdict_case(meta, cell, detail, sig))
+
+    def noise_var(tp):
+        return [float(v) for v in np.ravel(tp.likelihood.distribution.cov)]
+
+    for name, spec in LESSON_SPECS.items():
+        tp, d, err = construct(spec)
+        n = tp.model.domain_dim
+        x0 = np.array([rng.randint(4, 10) / 4 for _ in range(n)])
+        s2 = noise_var(tp); s2 = s2[0] if len(s2) == 1 else s2
+        mu, ps2 = prior_of(spec, n)
+        dat = [float(v) for v in np.ravel(tp.data)]
+        with warnings.catch_warnings():
+            warnings.simplefilter("ignore")
+            # ---- L15: the caller re-uses and overwrites ONE array object between calls
+            x = x0.copy()
+            y1 = tp.model.forward(x); c1 = np.array(y1, dtype=float, copy=True)
+            l1 = float(np.ravel(tp.posterior.logd(x))[0])
+            x *= 2                                   # in place: same object, new contents
+            y2 = np.array(tp.model.forward(x), dtype=float)
+            l2 = float(np.ravel(tp.posterior.logd(x))[0])
+            ref1, ref2 = _ref_forward(spec, x0), _ref_forward(spec, 2 * x0)
+            ok = rclose(np.ravel(c1), np.ravel(ref1), 1e-8) and rclose(np.ravel(y2), np.ravel(ref2), 1e-8) and np.array_equal(np.array(y1, dtype=float), c1) \
+                and close(l1, _explicit_logd(dat, ref1, s2, x0, mu, ps2), 1e-8) and close(l2, _explicit_logd(dat, ref2, s2, 2 * x0, mu, ps2), 1e-8)
+            emit("lesson/L15-inplace-argument/" + name, "L15/" + name, ok,
+                 "%s: forward/logd at an argument array overwritten in place between calls: forward %s / %s, documented %s / %s; logd %r / %r" % (
+                     name, np.ravel(c1), np.ravel(y2), np.ravel(ref1), np.ravel(ref2), l1, l2), "%s|inplace-argument" % spec["tp"])
+            # ---- L20: integer-dtype evaluation point
+            xi = np.array([2, 1, 3, 1, 2, 1, 2, 3, 1][:n])
+            yi = np.array(tp.model.forward(xi), dtype=float); li = float(np.ravel(tp.posterior.logd(xi))[0])
+            refi = _ref_forward(spec, xi)
+            ok = rclose(np.ravel(yi), np.ravel(refi), 1e-8) and close(li, _explicit_logd(dat, refi, s2, xi, mu, ps2), 1e-8)
+            emit("lesson/L20-int-point/" + name, "L20/" + name, ok, "%s: forward/logd at the integer-dtype point %s: %s, logd %r; documented %s" % (name, xi, yi, li, refi), "%s|int-point" % spec["tp"])
+            # ---- L14: set_data on a finished test problem is refused in every state and leaves it untouched
+            states = []
+            for stage in ("fresh-after-evaluation", "after-refused-call", "after-prior-reassign"):
+                if stage == "after-prior-reassign":
+                    tp.prior = cuqi.distribution.Gaussian(np.array(mu, dtype=float), ps2, name=tp.prior.name)
+                try:
+                    tp.set_data(y=np.zeros(len(dat)))
+                    states.append((stage, "accepted"))
+                except ValueError:
+                    states.append((stage, "refused"))
+                except Exception as e_:
+                    states.append((stage, type(e_).__name__))
+            l3 = float(np.ravel(tp.posterior.logd(x0))[0])
+            ok = all(r == "refused" for _, r in states) and [float(v) for v in np.ravel(tp.data)] == dat and close(l3, _explicit_logd(dat, ref1, s2, x0, mu, ps2), 1e-8)
+            emit("lesson/L14-refusal-states/" + name, "L14/" + name, ok, "%s.set_data on a constructed problem: %s; data afterwards %s (was %s), logd %r" % (name, states, np.ravel(tp.data), dat, l3),
+                 "%s|set_data-states" % spec["tp"])
+            # ---- L16: the composite a user rebuilds from get_components() (documented usage) has the explicit posterior
+            tp2, d2, _ = construct(spec)
+            A, ydat, info = tp2.get_components()
+            xd = cuqi.distribution.Gaussian(np.zeros(n), 0.25, name="x")
+            yd = cuqi.distribution.Gaussian(A(xd), 4.0, name="y")
+            BP = cuqi.problem.BayesianProblem(yd, xd).set_data(y=ydat)
+            lb = float(np.ravel(BP.posterior.logd(x0))[0])
+            want = _explicit_logd(dat, ref1, 4.0, x0, [0.0] * n, 0.25)
+            ok = close(lb, want, 1e-8) and BP.data is ydat and BP.model is not None
+            emit("lesson/L16-rebuilt-composite/" + name, "L16/" + name, ok, "%s: BayesianProblem(y, x).set_data(y=data) rebuilt from get_components(): posterior.logd = %r, explicit %r" % (name, lb, want),
+                 "%s|rebuilt-composite" % spec["tp"])
+
+    # ---- L19: user callables returning a reused work buffer / a non-contiguous result
+    def mk_map(kind, n):
+        if kind == "workbuffer":
+            buf = np.empty(n)
+            def m(v):
+                np.multiply(v, 2, out=buf); np.add(buf, 1, out=buf)
+                return buf
+        else:
+            big = np.zeros(2 * n)
+            def m(v):
+                big[::2] = 2 * np.asarray(v) + 1
+                return big[::2]                  # strided view of a persistent buffer
+        return m
+    for cname, cls, mapkw, tpk, extra in [("Heat1D", TP.Heat1D, "map", "heat", {}), ("Poisson1D", TP.Poisson1D, "map", "poisson", {"source": SOURCES["lin"]}), ("Abel1D", TP.Abel1D, "KL_map", "abel", {})]:
+        for kind in ("workbuffer", "strided-view"):
+            n = 5
+            with warnings.catch_warnings():
+                warnings.simplefilter("ignore")
+                with ScriptedRandom(seed=0, script=Draws([0.0] * (n - 1 if tpk == "poisson" else n))):
+                    tp = cls(dim=n, **{mapkw: mk_map(kind, n)}, **extra)
+                p1 = np.array([rng.randint(4, 10) / 4 for _ in range(n)]); p2 = np.array([rng.randint(4, 10) / 4 for _ in range(n)])
+                sp = {"tp": tpk, "kw": {"dim": n, "source": "lin"}}
+                r1, r2 = _ref_forward(sp, 2 * p1 + 1), _ref_forward(sp, 2 * p2 + 1)
+                a1 = tp.model.forward(p1); a1c = np.array(a1, dtype=float, copy=True)
+                a2 = np.array(tp.model.forward(p2), dtype=float)
+                a3 = np.array(tp.model.forward(p1), dtype=float)
+                ok = rclose(a1c, r1, 1e-8) and rclose(a2, r2, 1e-8) and rclose(a3, r1, 1e-8) and np.array_equal(np.array(a1, dtype=float), a1c) \
+                    and close(fl(tp.exactData), fl(tp.model.forward(tp.exactSolution)))
+            emit("lesson/L19-callable-%s/%s" % (kind, cname), "L19/%s/%s" % (kind, cname), ok,
+                 "%s with a map returning a %s: forward(p1), forward(p2), forward(p1) = %s, %s, %s; documented %s, %s" % (cname, kind, a1c, a2, a3, r1, r2), "%s|callable-%s" % (tpk, kind))
+
+    # ---- L25: one argument object shared by two problems that are alive at once; the FIRST evaluated after the second was built
+    with warnings.catch_warnings():
+        warnings.simplefilter("ignore")
+        pr = cuqi.distribution.Gaussian(np.array([0.0, 1.0, 0.0, -1.0, 0.5]), 0.25, name="x")
+        with ScriptedRandom(seed=0, script=Draws([0.5] * 5)):
+            a = TP.Deconvolution1D(dim=5, PSF=np.array([1., 2, 3]), BC="zero", phantom=np.array([1., 2, 3, 4, 5]), noise_std=0.5, prior=pr)
+        with ScriptedRandom(seed=0, script=Draws([0.25] * 5)):
+            b = TP.Deconvolution1D(dim=5, PSF=np.array([3., 1]), BC="mirror", phantom=np.array([5., 4, 3, 2, 1]), noise_std=2.0, prior=pr)
+        xx = np.array([0.5, 1.0, -1.0, 0.0, 2.0])
+        la, lb_ = float(np.ravel(a.posterior.logd(xx))[0]), float(np.ravel(b.posterior.logd(xx))[0])
+        sa = {"tp": "deconv1d", "kw": {"dim": 5, "PSF": [1, 2, 3], "BC": "zero"}}; sb = {"tp": "deconv1d", "kw": {"dim": 5, "PSF": [3, 1], "BC": "mirror"}}
+        wa = _explicit_logd(a.data, _ref_forward(sa, xx), 0.25, xx, [0.0, 1.0, 0.0, -1.0, 0.5], 0.25)
+        wb = _explicit_logd(b.data, _ref_forward(sb, xx), 4.0, xx, [0.0, 1.0, 0.0, -1.0, 0.5], 0.25)
+        ok = close(la, wa, 1e-8) and close(lb_, wb, 1e-8) and a.model is not b.model and a.data is not b.data
+        emit("lesson/L25-shared-prior/Deconvolution1D", "L25/prior", ok, "two Deconvolution1D problems given the SAME prior object: logd %r / %r, explicit %r / %r" % (la, lb_, wa, wb), "deconv1d|shared-prior")
+        geo = cuqi.geometry.Continuous1D(np.linspace(1 / 6, 1, 5, endpoint=False))
+        with ScriptedRandom(seed=0, script=Draws([0.0] * 5)):
+            h1 = TP.Heat1D(dim=5, field_type=geo, map=lambda v: 2 * v + 1)
+        with ScriptedRandom(seed=0, script=Draws([0.0] * 5)):
+            h2 = TP.Heat1D(dim=5, field_type=geo, map=lambda v: v * v + 1)
+        pp = np.array([1.0, 2.0, 0.5, 1.5, 1.0])
+        f1, f2 = np.array(h1.model.forward(pp), dtype=float), np.array(h2.model.forward(pp), dtype=float)
+        sh = {"tp": "heat", "kw": {"dim": 5}}
+        ok = rclose(f1, _ref_forward(sh, 2 * pp + 1), 1e-8) and rclose(f2, _ref_forward(sh, pp * pp + 1), 1e-8)
+        emit("lesson/L25-shared-geometry/Heat1D", "L25/geometry", ok, "two Heat1D problems given the SAME geometry instance with different maps: forward %s / %s" % (f1, f2), "heat|shared-geometry")
+        Pshared = np.array([[1., 2, 0], [0, 3, 1], [2, 1, 1]])
+        img = np.arange(9.)
+        with ScriptedRandom(seed=0, script=Draws([0.0] * 9)):
+            t1 = TP.Deconvolution2D(dim=3, PSF=Pshared, BC="zero", phantom=np.ones((3, 3)), noise_std=0.5)
+        with ScriptedRandom(seed=0, script=Draws([0.0] * 9)):
+            t2 = TP.Deconvolution2D(dim=3, PSF=Pshared, BC="mirror", phantom=np.ones((3, 3)), noise_std=0.5)
+        g1, g2 = np.array(t1.model.forward(img), dtype=float), np.array(t2.model.forward(img), dtype=float)
+        ok = close(g1, _ref_forward({"tp": "deconv2d", "kw": {"dim": 3, "PSF": Pshared.tolist(), "BC": "zero"}}, img)) and \
+            close(g2, _ref_forward({"tp": "deconv2d", "kw": {"dim": 3, "PSF": Pshared.tolist(), "BC": "mirror"}}, img))
+        emit("lesson/L25-shared-PSF/Deconvolution2D", "L25/PSF", ok, "two Deconvolution2D problems given the SAME PSF array with different BC: forward %s / %s" % (g1, g2), "deconv2d|shared-PSF")
+
+    # ---- L22: the true shipped defaults (dim 128; 1-d PSF size 128, 2-d PSF size 21 -- odd), scipy.ndimage as the documented operator
+    from scipy.ndimage import convolve1d, convolve
+    with warnings.catch_warnings():
+        warnings.simplefilter("ignore")
+        with ScriptedRandom(seed=0, script=Draws([0.0] * 128)):
+            t = TP.Deconvolution1D()
+        P1 = np.array(doc_psf_1d("gauss", 128, 10))
+        xs = np.asarray(t.exactSolution, dtype=float)
+        ok = close(np.asarray(t.exactData, dtype=float), convolve1d(xs, P1, mode="wrap")) and close(dense(t.model.get_matrix())[:, 5], convolve1d(np.eye(128)[:, 5], P1, mode="wrap")) \
+            and close(xs, np.sinc(5 * np.linspace(-1, 1, 128))) and close(noise_var(t), [1e-4]) and np.array_equal(np.asarray(t.data, dtype=float), np.asarray(t.exactData, dtype=float))
+        emit("lesson/L22-true-defaults/Deconvolution1D", "L22/Deconvolution1D", ok, "Deconvolution1D() with every default: operator / phantom / noise level differ from the documented defaults", "deconv1d|true-defaults")
+        with ScriptedRandom(seed=0, script=Draws([0.0] * 128 * 128)):
+            t = TP.Deconvolution2D()
+        P2 = np.array(doc_psf_2d("gauss", 21, 2.56))
+        X = np.asarray(t.exactSolution, dtype=float).reshape(128, 128)
+        imgr = np.zeros((128, 128)); imgr[3, 120] = 1.0; imgr[64, 64] = 2.0
+        ok = close(np.asarray(t.exactData, dtype=float).reshape(128, 128), convolve(X, P2, mode="wrap"), 1e-8) and \
+            close(np.asarray(t.model.forward(imgr.ravel()), dtype=float).reshape(128, 128), convolve(imgr, P2, mode="wrap"), 1e-8) and \
+            close(np.asarray(t.model.adjoint(imgr.ravel()), dtype=float).reshape(128, 128), convolve(imgr, P2[::-1, ::-1], mode="wrap"), 1e-8) and \
+            close(P2, np.asarray(t.Miscellaneous["PSF"], dtype=float)) and close(noise_var(t), [0.0036 ** 2], 1e-9)
+        emit("lesson/L22-true-defaults/Deconvolution2D", "L22/Deconvolution2D", ok, "Deconvolution2D() with every default (dim 128, PSF 21x21 Gauss 2.56, periodic): forward / adjoint / PSF / noise level differ from the documented defaults",
+             "deconv2d|true-defaults")
+    return cases
+
+
 def run(ctx):
     probe_state(force=True)
     ctx.note("tree state: %s" % _STATE)
@@ -1919,6 +2229,7 @@ def run(ctx):
                 c.key = ""; c.__post_init__()
             cases += cs
     cases += history_cases(ctx)
+    cases += lesson_cases(ctx)
     # shipped PSF generators
     for kind in ["gauss", "moffat", "defocus"]:
         for n in range(1, 8):
@@ -1959,6 +2270,8 @@ def _rerun(meta):
     cell = m.pop("cell", "replay")
     for kk in ("obs", "verdict", "observed", "entry"):
         m.pop(kk, None)
+    if h == "lesson" or m.get("tp") == "lesson":
+        return [c for c in lesson_cases(Ctx("C17", "quick", 0, "/repo")) if c.meta.get("name") == m.get("name")]
     if h == "history" or m.get("tp") == "history":
         return [c for c in history_cases(Ctx("C17", "quick", 0, "/repo")) if c.meta.get("name") == m.get("name")]
     if h == "phantom" or m.get("tp") == "phantom":
@@ -1998,6 +2311,7 @@ WITNESSES = {
              "z": [0.0] * 5, "x": [0.5, 1.0], "handler": "field"},
     SIG_PP: {"tp": "deconv2d", "kw": {"dim": 5, "PSF": [[1, 2], [3, 4]], "BC": "zero", "phantom": "p-power", "noise_std": 0.5}, "phantom_ref": "p_power",
              "img": [[0] * 5] * 5, "z": [0.0] * 25, "x": [0.0] * 25, "handler": "deconv2d"},
+    SIG_H1: {"tp": "heat", "kw": {"dim": 5, "SNR": 200, "observation_grid_map": "last"}, "z": [0.0], "x": [1.0, 1.0, 1.0, 1.0, 1.0], "handler": "heat"},
     SIG_PG: {"tp": "poisson", "kw": {"dim": 3, "endpoint": 2, "SNR": 200, "source": "one"}, "z": [0.0, 1.0], "x": [2.0, 1.75, 0.5], "handler": "poisson"},
     SIG_D0: {"tp": "deconv1d", "kw": {"dim": 6, "PSF": "defocus", "PSF_size": 3, "PSF_param": 0, "phantom": [1, 2, 3, 4, 5, 6], "noise_std": 0.5},
              "z": [0.0] * 6, "handler": "deconv1d"},
